@@ -40,7 +40,9 @@ def main():
         finds = [f["id"] for f in kf.get("findings", []) if f["property"] == pid]
         rows.append("| %s | %d%s | %s | %s | %s | %s |" % (
             pid, own, (" + " + ", ".join(extra)) if extra else "", ", ".join(parts)[:300],
-            TRANSLATORS.get(pid, "—"), ", ".join(fixes) or "—", ", ".join(finds) or "—"))
+            "; ".join([x for x in (TRANSLATORS.get(pid), "extract/loops.py (control skeleton vs tools/loop_profile/%s.json)" % pid
+                                   if os.path.exists(os.path.join(VERIF, "tools", "loop_profile", pid + ".json")) else None) if x]) or "—",
+            ", ".join(fixes) or "—", ", ".join(finds) or "—"))
     p = os.path.join(VERIF, "DESIGN.md")
     s = open(p).read()
     b, e = "<!-- PROP-TABLE-BEGIN -->", "<!-- PROP-TABLE-END -->"
